@@ -73,21 +73,32 @@ func (env *Env) evalCall(x *ast.CallExpr, st *State) Val {
 			case "fresh":
 				v := env.eval(x.Args[0], st)
 				c := env.c
-				c.decls.declConst("alloc0", "(Array Int Bool)")
 				if env.callerSide {
 					// at a call site: the callee's result is a new object
-					for _, o := range c.freshList {
-						st.assume(fmt.Sprintf("(distinct %s %s)", v.T, o))
-					}
+					c.freshFacts(env, st, v.T)
 					c.freshList = append(c.freshList, v.T)
 					c.freshRefs[v.T] = true
-					return boolVal(and(fmt.Sprintf("(> %s 0)", v.T), fmt.Sprintf("(not (select alloc0 %s))", v.T)))
+					return boolVal(fmt.Sprintf("(> %s 0)", v.T))
 				}
 				var alts []string
 				for _, f := range c.freshList {
 					alts = append(alts, eq(v.T, f))
 				}
 				return boolVal(or(alts...))
+			case "indexof":
+				// indexof(s, x): first index of x in slice s, or -1
+				sl := env.eval(x.Args[0], st)
+				xv := env.eval(x.Args[1], st)
+				c := env.c
+				ss := env.sortOf(sl.Ty)
+				es := env.sortOf(elemOf(sl.Ty))
+				xv = env.coerce(xv, elemOf(sl.Ty), st)
+				fn := "idxof_" + ss
+				c.decls.declFun(fn, []string{ss, es}, "Int")
+				c.decls.axiom(fn+"/def", fmt.Sprintf("(forall ((s %s) (x %s)) (! (and (<= (- 1) (%s s x)) (=> (<= 0 (%s s x)) (and (< (%s s x) (len_%s s)) (= (select (arr_%s s) (%s s x)) x)))) :pattern ((%s s x))))", ss, es, fn, fn, fn, ss, ss, fn, fn))
+				c.decls.axiom(fn+"/first", fmt.Sprintf("(forall ((s %s) (k Int)) (! (=> (and (<= 0 k) (< k (len_%s s))) (and (<= 0 (%s s (select (arr_%s s) k))) (<= (%s s (select (arr_%s s) k)) k))) :pattern ((%s s (select (arr_%s s) k)))))", ss, ss, fn, ss, fn, ss, fn, ss))
+				c.trust("indexof(s, x) is the first index of x in s or -1 (definitional axioms)")
+				return intVal(app(fn, sl.T, xv.T))
 			case "same":
 				a := env.eval(x.Args[0], st)
 				b := env.eval(x.Args[1], st)
@@ -318,6 +329,8 @@ func (env *Env) evalQuant(kind string, x *ast.CallExpr, st *State) Val {
 		for _, n := range f.Names {
 			bn := c.freshBound(n.Name)
 			binders = append(binders, fmt.Sprintf("(%s %s)", bn, env.sortOf(t)))
+			sub.qvars = append(append([]string(nil), sub.qvars...), fmt.Sprintf("(%s %s)", bn, env.sortOf(t)))
+			sub.qnames = append(append([]string(nil), sub.qnames...), bn)
 			bv := Val{T: bn, Ty: t}
 			sub.bound[n.Name] = bv
 			if !env.contract {
@@ -349,12 +362,33 @@ func (env *Env) evalQuant(kind string, x *ast.CallExpr, st *State) Val {
 				mentions = true
 			}
 		}
-		if mentions {
-			if strings.Contains(ex, "alloc0") && strings.Contains(ex, "(select ((as const") {
-				continue // allocation facts about elements of constant arrays are noise
+		tagged := strings.HasPrefix(ex, "(! ")
+		switch {
+		case mentions && tagged:
+			if strings.Contains(ex, "(select ((as const") {
+				continue
+			}
+			// the trigger must mention every variable bound here
+			if i := strings.LastIndex(ex, " :pattern "); i > 0 {
+				all := true
+				for _, bn := range bnames {
+					if !strings.Contains(ex[i:], bn) {
+						all = false
+					}
+				}
+				if !all {
+					ex = ex[3:i]
+				}
 			}
 			st.assumeOnce(fmt.Sprintf("(forall (%s) %s)", strings.Join(binders, " "), ex))
-		} else {
+		case mentions:
+			st.assumeOnce(fmt.Sprintf("(forall (%s) %s)", strings.Join(binders, " "), ex))
+		case tagged && len(env.qvars) == 0:
+			// no enclosing quantifier: plain fact
+			if i := strings.LastIndex(ex, " :pattern "); i > 0 {
+				st.assumeOnce(ex[3:i])
+			}
+		default:
 			st.assumeOnce(ex)
 		}
 	}
@@ -512,6 +546,9 @@ func (env *Env) doPanic(st *State, pos token.Pos) {
 // anything else is an uninterpreted (pure, deterministic) application.
 func (env *Env) applyFuncValue(fv Val, args []Val, st *State, call *ast.CallExpr) Val {
 	c := env.c
+	if fv.Fn != nil && fv.Fn.Yield {
+		return env.doYield(args, st, call)
+	}
 	if fv.Fn != nil {
 		if fv.Fn.Lit != nil {
 			return env.inlineClosure(fv.Fn, args, st, call)
@@ -570,6 +607,12 @@ func (env *Env) applyFuncValue(fv Val, args []Val, st *State, call *ast.CallExpr
 // callFunc dispatches a call of a named function or method.
 func (env *Env) callFunc(fobj *types.Func, recv *Val, args []Val, st *State, call *ast.CallExpr) Val {
 	c := env.c
+	// method expression T.m / (*T).m called as a function: the first argument is the receiver
+	if sg, ok := fobj.Type().(*types.Signature); ok && sg.Recv() != nil && recv == nil && len(args) == sg.Params().Len()+1 {
+		r := args[0]
+		recv = &r
+		args = args[1:]
+	}
 	full := fobj.FullName()
 	if o := fobj.Origin(); o != nil {
 		full = o.FullName()
@@ -786,6 +829,17 @@ func (c *Ctx) contractEnv(fi *FuncInfo, old *State, bind map[string]Val, results
 // bindArgs maps parameter names (and receiver name) to argument values.
 func (env *Env) bindArgs(fi *FuncInfo, recv *Val, args []Val, st *State) map[string]Val {
 	bind := map[string]Val{}
+	if ts := env.typeSubstFor(fi, recv, args); len(ts) > 0 {
+		e2 := *env
+		e2.tsubst = map[*types.TypeParam]types.Type{}
+		for k, v := range env.tsubst {
+			e2.tsubst[k] = v
+		}
+		for k, v := range ts {
+			e2.tsubst[k] = v
+		}
+		env = &e2
+	}
 	rv, ps, _ := paramObjs(fi)
 	sig := fi.Obj.Type().(*types.Signature)
 	if recv != nil {
@@ -827,7 +881,7 @@ func (env *Env) bindArgs(fi *FuncInfo, recv *Val, args []Val, st *State) map[str
 		}
 		a := args[i]
 		if pt != nil {
-			a = env.coerce(a, pt, st)
+			a = env.coerce(a, env.subst(pt), st)
 		}
 		if p != nil && p.Name() != "" && p.Name() != "_" {
 			bind[p.Name()] = a
@@ -859,6 +913,7 @@ func (env *Env) applyContract(fi *FuncInfo, recv *Val, args []Val, st *State, ca
 	c.callOrd[fi.Key]++
 	short := strings.TrimPrefix(fi.Key, c.fi.Pkg.Name+".")
 	pre := c.contractEnv(fi, nil, bind, nil, ts)
+	pre.qvars, pre.qnames = env.qvars, env.qnames
 	for k, r := range con.Requires {
 		g := pre.evalBool(r.Expr, st)
 		if !c.noSafety {
@@ -882,12 +937,13 @@ func (env *Env) applyContract(fi *FuncInfo, recv *Val, args []Val, st *State, ca
 	}
 	sig := fi.Obj.Type().(*types.Signature)
 	var results []Val
-	sub := &Env{c: c, tsubst: ts}
+	sub := &Env{c: c, tsubst: ts, qvars: env.qvars, qnames: env.qnames}
 	for i := 0; i < sig.Results().Len(); i++ {
 		results = append(results, sub.havoc(st, "r_"+fi.Obj.Name(), sig.Results().At(i).Type()))
 	}
 	post := c.contractEnv(fi, old, bind, results, ts)
 	post.callerSide = true
+	post.qvars, post.qnames = env.qvars, env.qnames
 	for _, en := range con.Ensures {
 		st.assume(post.evalBool(en.Expr, st))
 	}
@@ -1008,7 +1064,7 @@ func (env *Env) inlineFunc(fi *FuncInfo, recv *Val, args []Val, st *State, call 
 			ts[k] = v
 		}
 	}
-	sub := &Env{c: c, fn: fi, pkg: c.pkgRefOf(fi), tsubst: ts, bound: map[string]Val{}, old: env.old, noSafety: env.noSafety || fi.Ghost, depth: env.depth + 1}
+	sub := &Env{c: c, fn: fi, pkg: c.pkgRefOf(fi), tsubst: ts, bound: map[string]Val{}, old: env.old, noSafety: env.noSafety || fi.Ghost, depth: env.depth + 1, qvars: env.qvars, qnames: env.qnames}
 	if env.oldMode {
 		sub.oldMode = true
 	}
@@ -1126,6 +1182,7 @@ func (env *Env) inlineClosure(cl *Closure, args []Val, st *State, call *ast.Call
 	}
 	sub.old = env.old
 	sub.oldMode = env.oldMode
+	sub.qvars, sub.qnames = env.qvars, env.qnames
 	sig, _ := cenv.typeOfExpr(cl.Lit).(*types.Signature)
 	i := 0
 	sub.bound = map[string]Val{}
@@ -1376,4 +1433,32 @@ func (env *Env) lockToken(ce *Env, h string, st *State) string {
 		return h
 	}
 	return ce.eval(ex, st).T + "." + mu
+}
+
+// doYield: inside a generator body, yield(v...) appends to the ghost output sequences.
+func (env *Env) doYield(args []Val, st *State, call *ast.CallExpr) Val {
+	c := env.c
+	stopped := st.ghost["stopped_"]
+	if !c.noSafety {
+		name := fmt.Sprintf("gen/yield-after-stop#%d", c.ordinal("gen/yield"))
+		c.addObl(st, name, "gen", not(stopped.T), c.e.pos(call.Pos()), "no yield after the consumer stopped the iteration", nil)
+	}
+	for i, a := range args {
+		key := "out_"
+		if i == 1 {
+			key = "out2_"
+		}
+		out := st.ghost[key]
+		if out.Ty == nil {
+			continue
+		}
+		ss := env.sortOf(out.Ty)
+		el := elemOf(out.Ty)
+		av := env.coerce(a, el, st)
+		ln := app("len_"+ss, out.T)
+		st.ghost[key] = Val{T: app("mk_"+ss, app("store", app("arr_"+ss, out.T), ln, av.T), app("+", ln, "1")), Ty: out.Ty}
+	}
+	cont := c.fresh("cont", "Bool")
+	st.ghost["stopped_"] = Val{T: or(stopped.T, not(cont)), Ty: tBool}
+	return boolVal(cont)
 }
